@@ -361,3 +361,59 @@ func baseName(fn *ssa.Function) string {
 	}
 	return fn.Name()
 }
+
+// orderedCopyWalk: the function copies every element of the walked slice,
+// index for index from 0, into a fresh slice of the same length that it
+// returns on success (wire order preserved). Validation is not required here.
+func orderedCopyWalk(w *World, fn *ssa.Function, isSource func(ssa.Value) bool) WalkReport {
+	var loop *SliceLoop
+	for _, l := range sliceLoops(fn) {
+		if isSource(l.S) {
+			l := l
+			loop = &l
+		}
+	}
+	if loop == nil {
+		// a function may legitimately return the slice itself converted: accept make+copy-less identity? no: report
+		return WalkReport{Why: "no full walk over the element slice found"}
+	}
+	if loop.First != 0 {
+		return WalkReport{Why: fmt.Sprintf("the walk starts at index %d", loop.First)}
+	}
+	var store *ssa.Store
+	for _, b := range fn.Blocks {
+		if !loop.Body.Dominates(b) {
+			continue
+		}
+		for _, in := range b.Instrs {
+			st, ok := in.(*ssa.Store)
+			if !ok {
+				continue
+			}
+			ia, ok := st.Addr.(*ssa.IndexAddr)
+			if !ok || ia.Index != loop.Idx {
+				continue
+			}
+			if _, ok := ia.X.(*ssa.MakeSlice); ok {
+				store = st
+			}
+		}
+	}
+	if store == nil {
+		return WalkReport{Why: "elements are not copied index-for-index into a fresh result slice"}
+	}
+	ms := store.Addr.(*ssa.IndexAddr).X.(*ssa.MakeSlice)
+	if lo, ok := lenOperand(ms.Len); !ok || !sameSlice(lo, loop.S) {
+		return WalkReport{Why: "the result slice is not made with the length of the list walked"}
+	}
+	if !elementOf(stripIface(store.Val), loop.S, loop.Idx) {
+		return WalkReport{Why: "the value stored into the result slice is not the element at the same index"}
+	}
+	ei := errIndex(fn)
+	for _, b := range fn.Blocks {
+		if ret, ok := b.Instrs[len(b.Instrs)-1].(*ssa.Return); ok && loop.Done.Dominates(b) && ei >= 0 && isNilConst(ret.Results[ei]) && ret.Results[0] != ssa.Value(ms) {
+			return WalkReport{Why: "the success return does not return the slice the elements were copied into"}
+		}
+	}
+	return WalkReport{OK: true, Detail: "index-for-index copy"}
+}
